@@ -73,7 +73,15 @@ fn check_text<T: Plain>(t: &[u8]) -> Result<&'static str, String> {
     let p = match rt::parse(t, rule) {
         Ok(p) => p,
         Err(_) => {
-            // a text the grammar rejects must be rejected by the string-trait entry point as well
+            // a text the grammar rejects must be rejected by every entry point (otherwise an accepted text would not
+            // format back to itself)
+            if let Ok(h) = guarded(|| T::parse_bytes(t))? {
+                return Err(format!("from_bytes accepts a text the grammar rejects (gives {})", h));
+            }
+            let mut idx = 0usize;
+            if let Ok(h) = guarded(|| T::parse_bytes_idx(t, &mut idx))? {
+                return Err(format!("from_bytes_with_last_index accepts a text the grammar rejects (gives {})", h));
+            }
             if let Ok(st) = std::str::from_utf8(t) {
                 if let Ok(h) = guarded(|| T::parse_str(st))? {
                     return Err(format!("str::parse accepts a text the grammar rejects (gives {})", h));
